@@ -73,7 +73,7 @@ let strip_key k =
 let fx =
   let e = try Sys.getenv "C07_FIXES" with Not_found -> "" in
   let has w = List.mem w (String.split_on_char ',' e) in
-  { fx_pop = has "pop"; fx_nullref = has "nullref"; fx_placeholder_children = has "kids" }
+  { fx_pop = has "pop"; fx_nullref = has "nullref"; fx_placeholder_children = has "kids"; fx_cycle_guard = has "cycle" }
 
 (* T:<u|c>:<name>:<url>:<ref> on the origin model object: importSource()->setUrl(url) (every entity that shares the
    ImportSource sees it) and setImportReference(ref) *)
